@@ -461,7 +461,7 @@ Record FarmAcc (f : farm) : Prop := {
   fa_prin : f_bal_farming f = f_supply f
 }.
 
-Definition acc_post (f f' : farm) : Prop := FarmAcc f' /\ don f <= don f' /\ f_rps f <= f_rps f'.
+Definition acc_post (f f' : farm) : Prop := FarmAcc f' /\ don f' = don f /\ f_rps f <= f_rps f'.
 
 Definition valid_op (op : fop) : Prop :=
   match op with
@@ -773,9 +773,16 @@ Qed.
 Lemma wf_of_acc f : FarmAcc f -> 0 <= f_rate f /\ 0 <= f_pct f <= MAXP.
 Proof. intros [[_ _ _ _ _ _ (w1 & w2 & w3 & _)] _ _]. auto. Qed.
 
-Lemma fstep_acc f op f' o : fstep f op = Ok (f', o) -> FarmAcc f -> valid_op op -> acc_post f f'.
+(** reward tokens sent to the farm by a plain transfer *)
+Definition donated (op : fop) : Z := match op with FTopUp a => a | _ => 0 end.
+
+Lemma fstep_acc f op f' o : fstep f op = Ok (f', o) -> FarmAcc f -> valid_op op ->
+  FarmAcc f' /\ don f' = don f + donated op /\ f_rps f <= f_rps f'.
 Proof.
-  intros H A V. destruct op; simpl in H, V.
+  intros H A V.
+  assert (Hz : acc_post f f' -> FarmAcc f' /\ don f' = don f + 0 /\ f_rps f <= f_rps f').
+  { intros (X & Y & Z). split; [exact X | split; [lia | exact Z]]. }
+  destruct op; simpl in H, V; simpl donated; try apply Hz.
   - eapply ep_enter_acc; eauto.
   - eapply ep_claim_acc; eauto.
   - eapply ep_compound_acc; eauto.
@@ -814,7 +821,7 @@ Proof.
   - destruct (admin c); [|discriminate]. destruct (_ && _); [|discriminate]. inversion H; subst.
     destruct (wf_of_acc _ A). apply FarmAcc_cfg; auto.
   - (* TopUp *) destruct (0 <? amt) eqn:E; [|discriminate]. inversion H; subst. apply Z.ltb_lt in E.
-    destruct A as [[acc led hh fr frh nx wf] out prin]. unfold acc_post, don. simpl.
+    destruct A as [[acc led hh fr frh nx wf] out prin]. unfold don. simpl.
     split; [|split; lia]. constructor; simpl; auto. constructor; simpl; auto.
 Qed.
 
